@@ -255,4 +255,8 @@ abbrev Distinct (f : Forest) : Prop := DistinctF f
 /-- no line of the configuration starts with the negation prefix `no ` -/
 def Plain (f : Forest) : Prop := ∀ p ∈ paths f, isRem p = false
 
+/-- the text is one the loader stores: at least one word, words separated by one blank, no
+surrounding whitespace -/
+def NormalText (t : Str) : Prop := normLine t = some (0, t)
+
 end Ccp.Diff
